@@ -1,7 +1,7 @@
 From Coq Require Import String.
-From TlsModel Require Import GenBase Show Main GenTls.
+From TlsModel Require Import GenBase Show Main GenTls GenKx.
 
-Definition all_families : list (string * G (list case)) := families_tls.
+Definition all_families : list (string * G (list case)) := families_tls ++ families_kx.
 
 Fixpoint find_family (name : list byte) (l : list (string * G (list case))) : option (G (list case)) :=
   match l with
